@@ -7,9 +7,9 @@ CONFIG = {
         "util": [("crypto/merkletrie", "merkletrie")],
         "env": {
             "quick": {"VERIF_C17_KEYS": 4, "VERIF_C17_LEN": 4, "VERIF_C17_HASH_EVERY": 6,
-                      "VERIF_C17_RANDOM": 150, "VERIF_C17_RANDOM_OPS": 120, "VERIF_C17_MALFORMED": 200},
+                      "VERIF_C17_RANDOM": 150, "VERIF_C17_RANDOM_OPS": 120, "VERIF_C17_CYCLES": 1500, "VERIF_C17_MALFORMED": 200},
             "thorough": {"VERIF_C17_KEYS": 4, "VERIF_C17_LEN": 5, "VERIF_C17_HASH_EVERY": 8,
-                         "VERIF_C17_RANDOM": 3000, "VERIF_C17_RANDOM_OPS": 200, "VERIF_C17_MALFORMED": 3000},
+                         "VERIF_C17_RANDOM": 3000, "VERIF_C17_RANDOM_OPS": 200, "VERIF_C17_CYCLES": 30000, "VERIF_C17_MALFORMED": 3000},
         },
         "timeout": {"quick": 600, "thorough": 3000},
     }],
@@ -17,7 +17,7 @@ CONFIG = {
             "{Add k, Delete k : k in a universe of 4 three-byte keys sharing prefixes} + {Commit, Evict(true), Evict(false), reload from the committer}, "
             "each followed by RootHash, the page configuration rotating over 7 MemoryConfigs (2..512 nodes/page, cache targets 0..10000, fill factors 0..1, "
             "fan-out thresholds 1..64); plus random long sequences over random 32-byte (and 1..6-byte) keys with forced shared prefixes under random page "
-            "configurations, plus a malformed stream (wrong lengths, empty elements). Observed: every Add/Delete/Commit/Evict result, every RootHash digest, "
+            "configurations, plus commit/evict/reload cycles with branch-local changes under tiny page configurations (1500 / 30000 sequences), plus a malformed stream (wrong lengths, empty elements). Observed: every Add/Delete/Commit/Evict result, every RootHash digest, "
             "the final digest vs the digest of a fresh trie built from the sorted final set, and the stored trie read back node by node. "
             "Digests are recomputed by the model's own SHA-512/256 on every 6th (8th) exhaustive case and 1/6 (1/8) of the random ones. "
             "A case is non-trivial when at least two Add/Delete calls changed the set; distinct = distinct case lines.",
